@@ -922,9 +922,26 @@ func runCheck(mode string, args []string) {
 		}
 		for _, ce := range r.CEs {
 			ck := ce.Entry + "|" + ce.Kind + "|" + ce.ID + "|" + ce.Pos + "|" + strings.Join(ce.Known, ",")
-			ceClass[ck]++
-			if ceClass[ck] > 5 {
-				continue
+			if len(ce.Pauses) > 0 {
+				// schedule-dependent: candidates of one class differ in where the preemption was; natively only some
+				// of those places can carry a pause, so up to 16 candidates with distinct preemption points are tried
+				sig := ck
+				for _, pp := range ce.Pauses {
+					sig += fmt.Sprintf("|%s:%d:%s", pp.File, pp.Line, pp.Kind)
+				}
+				ceClass[sig]++
+				if ceClass[sig] > 1 {
+					continue
+				}
+				ceClass[ck]++
+				if ceClass[ck] > 16 {
+					continue
+				}
+			} else {
+				ceClass[ck]++
+				if ceClass[ck] > 5 {
+					continue
+				}
 			}
 			ce.Mutation = strings.Join(muts, ";")
 			rep := 1
